@@ -160,6 +160,10 @@ CROSS_FIELD_INVALID = [
     {"alpha_final_type": None},  # final_bounds_scalar stays set
     {"initial_step_percentage": None},  # nlopt algorithm needs a step
     {"alpha_final_type": None, "alpha_final": None, "final_bounds_scalar": 1.0},
+    # a value outside its range is rejected in every state of the fields next to it
+    {"alpha_final_type": None, "final_bounds_scalar": None, "alpha_final": 2.5},
+    {"alpha_final_type": None, "final_bounds_scalar": None, "alpha_final": -150.0},
+    {"alpha_final_type": "all", "alpha_final": 5.0},
 ]
 CROSS_FIELD_VALID = [
     {"alpha_final_type": None, "final_bounds_scalar": None},
@@ -356,11 +360,17 @@ def judge_invalid(c, rec):
                 kwargs = deep_merge(kwargs, {"developer_mode": True, "silent_developer_mode": True})
             elif devmode:
                 continue
-            st, s = construct(route, cls_name, kwargs)
-            if st == "ok":
-                got = get_path(s, path)
-                rec.violation("invalid/accepted/" + ".".join(path), c, "%s %s=%r accepted (developer_mode=%s, route %s), recorded %r" % (
-                    cls_name, ".".join(path), alt, devmode, route, got))
+            # an invalid value stays invalid whatever valid choices the other fields carry (the final refit switched off, ...)
+            contexts = [{}]
+            if devmode and cls_name in DAILY_CLASSES and route == "class":
+                contexts += [ctx for ctx in CROSS_FIELD_VALID if path[0] not in ctx]
+            for ctx in contexts:
+                st, s = construct(route, cls_name, deep_merge(copy.deepcopy(ctx), kwargs))
+                if st == "ok":
+                    got = get_path(s, path)
+                    rec.violation("invalid/accepted/" + ".".join(path) + ("/in-context" if ctx else ""), c, "%s %s=%r accepted (developer_mode=%s, route %s, other fields %r), recorded %r" % (
+                        cls_name, ".".join(path), alt, devmode, route, ctx, got))
+                    break
     rec.case(c, True, ["sub=invalid", "cls=" + cls_name])
 
 
